@@ -727,6 +727,67 @@ Fixpoint run (st : srv) (ops : list op) : option (srv * list (Z * list bytes)) :
 
 Definition init (db : list attr) (b : bearer) (max_mtu : Z) : srv := mkSrv db b max_mtu [] false [].
 
+(* ------------------------------------------------------------------ several bearers on one server
+   Server keeps `subscribers`, `indication_semaphores` and `pending_confirmations` keyed by
+   bearer; the ATT_MTU and the security state live on the bearer / its connection.  So the
+   server state is the database (and the constant max_mtu) plus one [bst] per bearer, and a
+   stimulus on bearer i is [step] on the single-bearer state made of the database and the
+   i-th [bst]: NOTHING but the database is shared between bearers.  (An EATT bearer has
+   the security state of the connection it runs on; that is fixed when the bearer is
+   listed.) *)
+Record bst := mkBst {
+  bs_b : bearer;
+  bs_subs : list (Z * bytes);
+  bs_pending : bool;
+  bs_waiting : list bytes
+}.
+
+Record msrv := mkM { m_db : list attr; m_max_mtu : Z; m_bs : list bst }.
+
+Definition proj (m : msrv) (x : bst) : srv :=
+  mkSrv (m_db m) (bs_b x) (m_max_mtu m) (bs_subs x) (bs_pending x) (bs_waiting x).
+Definition bst_of (st : srv) : bst := mkBst (s_b st) (s_subs st) (s_pending st) (s_waiting st).
+
+Fixpoint set_nth {A : Type} (n : nat) (x : A) (l : list A) : list A :=
+  match l, n with
+  | [], _ => []
+  | _ :: l', O => x :: l'
+  | y :: l', S n' => y :: set_nth n' x l'
+  end.
+
+(* a stimulus for a bearer the server does not know is ignored *)
+Definition mstep (m : msrv) (i : nat) (o : op) : option (msrv * list bytes) :=
+  match nth_error (m_bs m) i with
+  | None => Some (m, [])
+  | Some x =>
+      match step (proj m x) o with
+      | None => None
+      | Some (st', out) => Some (mkM (s_db st') (m_max_mtu m) (set_nth i (bst_of st') (m_bs m)), out)
+      end
+  end.
+
+(* outputs per op: the bearer they were sent on and the PDUs *)
+Fixpoint mrun (m : msrv) (ops : list (nat * op)) : option (msrv * list (nat * list bytes)) :=
+  match ops with
+  | [] => Some (m, [])
+  | (i, o) :: ops' =>
+      match mstep m i o with
+      | None => None
+      | Some (m1, out) =>
+          match mrun m1 ops' with
+          | None => None
+          | Some (m2, outs) => Some (m2, (i, out) :: outs)
+          end
+      end
+  end.
+
+Definition minit (db : list attr) (max_mtu : Z) (bs : list bearer) : msrv :=
+  mkM db max_mtu (map (fun b => mkBst b [] false []) bs).
+
+(* what was sent to bearer i over a history *)
+Definition outs_of (i : nat) (outs : list (nat * list bytes)) : list (list bytes) :=
+  map snd (filter (fun x => Nat.eqb (fst x) i) outs).
+
 (* ------------------------------------------------------------------ trace predicates *)
 Definition is_indication (p : bytes) : bool :=
   match p with x :: _ => x =? OP_INDICATE | [] => false end.
@@ -882,3 +943,11 @@ Definition final_values (r : option (srv * list (Z * list bytes))) : list (Z * b
   match r with None => [] | Some (st, _) => map (fun a => digest (a_value a)) (s_db st) end.
 Definition final_mtu (r : option (srv * list (Z * list bytes))) : Z :=
   match r with None => -1 | Some (st, _) => mtu_of st end.
+
+Definition opt_out_m (r : option (msrv * list (nat * list bytes)))
+  : option (list (list (Z * bytes * Z))) :=
+  match r with None => None | Some (_, outs) => Some (map (fun io => map digest (snd io)) outs) end.
+Definition final_values_m (r : option (msrv * list (nat * list bytes))) : list (Z * bytes * Z) :=
+  match r with None => [] | Some (m, _) => map (fun a => digest (a_value a)) (m_db m) end.
+Definition final_mtus (r : option (msrv * list (nat * list bytes))) : list Z :=
+  match r with None => [] | Some (m, _) => map (fun x => b_mtu (bs_b x)) (m_bs m) end.
